@@ -300,13 +300,10 @@ Qed.
 (* 3. notify_result                                                    *)
 (* ------------------------------------------------------------------ *)
 
-Lemma notify_result_XInv x awaiter awaited v data x' :
-  XInv x -> notify_result true x awaiter awaited v data = Val x' -> XInv x' /\ xstable x x'.
+Lemma notify_result_store_XInv x awaiter awaited v data x' :
+  XInv x -> notify_result_store true x awaiter awaited v data = Val x' -> XInv x' /\ xstable x x'.
 Proof.
-  intros X H. unfold notify_result in H.
-  destruct (true && negb match get_proc x awaiter with
-                         | Some p => has_key awaited (p_await p) | None => false end) eqn:Ek.
-  { inversion H; subst x'. split; [exact X|apply stable_refl]. }
+  intros X H. unfold notify_result_store in H.
   apply obind_val in H as ([h1 v1] & Hi & H).
   pose proof X as (W & R & ND).
   destruct (inject_cnt _ _ _ _ _ W Hi) as (W1 & St1 & Cb1 & Rc1).
@@ -335,7 +332,7 @@ Qed.
    release *)
 Definition nr_heap : heap := mkHeap [Owned []] [1] [] [] [false] [].
 Definition nr_exec : exec :=
-  mkExec nr_heap [(0, mkProc [] [] [] false [] None None [(1, Some (VBin 0))])].
+  mkExec nr_heap [(0, mkProc [] [] [] false [] None None [(1, Some (VBin 0))] [])].
 
 Lemma nth_nil_nat i : nth i (@nil nat) 0 = 0.
 Proof. destruct i; reflexivity. Qed.
@@ -550,6 +547,28 @@ Proof.
   apply XInv_put; [exact ND|]. eapply Inv_refs_eq; [exact E|exact (XInv_take _ _ _ X G)].
 Qed.
 
+(* 8388832: notify_await_report only edits the list of unreported awaits — no root changes *)
+Lemma report_await_XInv x awaiter targets :
+  XInv x -> XInv (report_await x awaiter targets) /\ xstable x (report_await x awaiter targets).
+Proof.
+  intros X. unfold report_await, xstable.
+  destruct (get_proc x awaiter) as [p|] eqn:G; [|split; [exact X|apply stable_refl]].
+  split; [|cbn [x_heap put_proc]; apply stable_refl].
+  apply (XInv_put_same _ _ _ _ X G). intro i. rewrite !cnt_proc_refs.
+  cbn [p_stack p_locals p_mailbox p_result p_sel p_await set_unreported]. reflexivity.
+Qed.
+
+Lemma notify_result_XInv x awaiter awaited v data x' :
+  XInv x -> notify_result true x awaiter awaited v data = Val x' -> XInv x' /\ xstable x x'.
+Proof.
+  intros X H. unfold notify_result in H.
+  destruct (true && negb (still_awaited x awaiter awaited)) eqn:Ek.
+  { inversion H; subst x'. split; [exact X|apply stable_refl]. }
+  destruct (report_await_XInv x awaiter [awaited] X) as [X1 S1].
+  destruct (notify_result_store_XInv _ _ _ _ _ _ X1 H) as [X2 S2].
+  split; [exact X2|]. unfold xstable in *. eapply stable_trans; eauto.
+Qed.
+
 Lemma fail_result_XInv fx x pid awaited :
   XInv x -> (forall p, get_proc x pid = Some p -> result_refs (p_result p) = []) ->
   XInv (fail_result fx x pid awaited).
@@ -563,7 +582,7 @@ Qed.
 
 (* finding F45h: worker.rs notify_result(Err) overwrites an Ok result without releasing it *)
 Definition fr_exec : exec :=
-  mkExec nr_heap [(0, mkProc [] [] [] false [] (Some (Some (VBin 0))) None [])].
+  mkExec nr_heap [(0, mkProc [] [] [] false [] (Some (Some (VBin 0))) None [] [])].
 
 Example fr_exec_XInv : XInv fr_exec.
 Proof.
@@ -618,8 +637,8 @@ Definition sh_heap : heap :=
          [false; false] [].
 Definition sh_exec : exec :=
   mkExec sh_heap
-    [(1, mkProc [VBin 0] [VTuple 0 [VInt 7%Z; VBin 0]] [] false [] None None []);
-     (2, mkProc [] [] [] false [VBin 0] (Some (Some (VBin 1))) None [])].
+    [(1, mkProc [VBin 0] [VTuple 0 [VInt 7%Z; VBin 0]] [] false [] None None [] []);
+     (2, mkProc [] [] [] false [VBin 0] (Some (Some (VBin 1))) None [] [])].
 
 Lemma sh_heap_WF : WFh sh_heap.
 Proof.
@@ -688,7 +707,8 @@ Proof.
           cbv beta iota in H1; inversion H1; subst x1.
         + destruct (notify_result_XInv _ _ _ _ _ _ X En) as [Xa Sa].
           split; [exact Xa|]. split; [exact Sa|]. intros Hn; discriminate Hn.
-        + split; [exact X|]. split; [apply stable_refl|]. intros Hn; discriminate Hn.
+        + destruct (report_await_XInv x w [pid] X) as [Xr Sr].
+          split; [exact Xr|]. split; [exact Sr|]. intros Hn; discriminate Hn.
       - destruct (get_proc x w) as [p|] eqn:G; cbv beta iota in H1; inversion H1; subst x1.
         + split; [|split].
           * apply (XInv_put_same _ _ _ _ X G). intro i. rewrite !cnt_proc_refs. proj_cbn.
